@@ -12,11 +12,14 @@ DEL_BEFORE == 1
 DEL_AFTER  == 2
 DEL_ACROSS == 4
 DEL_SIDE   == 8
-NoRecover  == -1
-Factor16   == 65536
-MakeRecover(index, offset) == index + offset * Factor16
-RecoverIndex(v) == v % Factor16
-RecoverOffset(v) == v \div Factor16
+(* A recover value names a range of a map and an offset into it.  The code packs the two into one integer
+   (index + offset * 2^16, the index being the 16-bit part); the specification keeps them as a pair, so that
+   offsets of any size can be evaluated (TLC's integers are 32-bit) - the harness packs / unpacks when it
+   compares with the library. *)
+NoRecover  == <<-1, -1>>
+MakeRecover(index, offset) == <<index, offset>>
+RecoverIndex(v) == v[1]
+RecoverOffset(v) == v[2]
 
 OldSize(m, r) == IF m.inv THEN r[3] ELSE r[2]
 NewSize(m, r) == IF m.inv THEN r[2] ELSE r[3]
